@@ -20,7 +20,13 @@ func checkSeekTables(p *Program, r *Report) {
 		f := p.MustFunc("(*blockReader).seek")
 		fk := funcKey(f)
 		cfg := &simCfg{Event: map[string]bool{"(*blockIter).Next": true}, Pure: map[string]bool{keyName: true, "(*blockReader).getType": true, "(*blockReader).restartOffset": true},
-			Opaque: map[string]bool{"sort.Search": true, "newRecord": true}, NoInlineDefault: true}
+			Opaque: map[string]bool{"sort.Search": true, "newRecord": true}, NoInlineDefault: true, Inline: map[string]bool{}}
+		// the restart search and the scan may live in helpers of seek
+		for _, h := range withHelpers(p, f)[1:] {
+			if k := funcKey(h); !cfg.Event[k] && !cfg.Pure[k] && !cfg.Opaque[k] && h.Parent() == nil {
+				cfg.Inline[k] = true
+			}
+		}
 		c, _ := runSim(p, f, cfg, nil)
 		want := mk("param", fk+"."+f.Params[1].Name(), f.Params[1].Type())
 		nStop, nGo := 0, 0
@@ -85,7 +91,8 @@ func checkSeekTables(p *Program, r *Report) {
 		for _, f := range p.Funcs {
 			for _, ci := range callsDirect(f, "sort.Search") {
 				if mc, ok := ci.Common().Args[1].(*ssa.MakeClosure); ok {
-					if g, ok := mc.Fn.(*ssa.Function); ok {
+					// a closure, or a method value (then the method is the predicate)
+					if g, _ := p.closureTarget(mc); g != nil {
 						pred = g
 						nPred++
 					}
@@ -121,6 +128,28 @@ func checkSeekTables(p *Program, r *Report) {
 				if pt, ok := fv.Type().Underlying().(*types.Pointer); ok {
 					if b, ok := pt.Elem().Underlying().(*types.Basic); ok && b.Kind() == types.String {
 						key = mk("init", "", nil, ft)
+					}
+				}
+			}
+			if key == nil && pred.Signature.Recv() != nil && len(pred.Params) > 0 {
+				// a method value: the key is the string field of the receiver
+				recv := mk("param", funcKey(pred)+"."+pred.Params[0].Name(), pred.Params[0].Type())
+				rt := pred.Params[0].Type()
+				if pt, ok := rt.Underlying().(*types.Pointer); ok {
+					rt = pt.Elem()
+				}
+				if nt, ok := rt.(*types.Named); ok {
+					if stt, ok := nt.Underlying().(*types.Struct); ok {
+						nStr := 0
+						for i := 0; i < stt.NumFields(); i++ {
+							if b, ok := stt.Field(i).Type().Underlying().(*types.Basic); ok && b.Kind() == types.String {
+								nStr++
+								key = a_load(s.St, mk("field", nt.Obj().Name()+"."+stt.Field(i).Name(), nil, recv))
+							}
+						}
+						if nStr != 1 {
+							key = nil
+						}
 					}
 				}
 			}
